@@ -112,6 +112,7 @@ def run_c27(ctx, pid):
                             workers=2 if quick else 6) for c in design]
     f_late = pool.submit(ctx.tlc, SPEC, "MC_Coalescer_late.cfg", module="MC_Coalescer", timeout=900, expect_fail=True, workers=2)
     f_single = pool.submit(ctx.tlc, SPEC, "MC_Coalescer_single.cfg", module="MC_Coalescer", timeout=900, expect_fail=True, workers=2)
+    f_resend = pool.submit(ctx.tlc, SPEC, "MC_Coalescer_resend.cfg", module="MC_Coalescer", timeout=900, expect_fail=True, workers=2)
     f_live = None
     if not quick:
         f_live = pool.submit(ctx.tlc_must_hold, SPEC, "MC_Coalescer_live.cfg", module="MC_Coalescer", timeout=3000, workers=4)
@@ -197,13 +198,16 @@ def run_c27(ctx, pid):
         f_live.result()
     if f_single.result().violated != "NoSilentDrop":
         raise vlib.Infra("Coalescer.tla with Defects={SingleDrain} no longer violates NoSilentDrop (spec changed?)")
+    if f_resend.result().violated != "AtMostOnce":
+        raise vlib.Infra("Coalescer.tla with Defects={ResendOnError} no longer violates AtMostOnce (spec changed?)")
     if f_late.result().violated != "NoSilentDrop":
         raise vlib.Infra("Coalescer.tla with Defects={LateSubmit} no longer violates NoSilentDrop (spec changed?)")
 
     assumptions = [
         "a Go select with several ready cases picks one at random: a replay follows a walk only while the real choice "
         "equals the walk's (otherwise the run continues freely and is still judged); walks are retried",
-        "transport failures are scripted at the receiver before it delivers (a failed batch is never also delivered); "
+        "transport failures are scripted at the receiver: proto error / connection closed before delivery / batch delivered and "
+        "the reply lost (then the batch is legitimately delivered AND dead-lettered, but must reach the receiver only once); "
         "the 5 s flush time-out is not exercised",
         "in the puppet replays the handler registered with WithCoalescingErrorHandler records the failed batch; the real "
         "dead-letter publication (enqueueCoalescedFailure) is exercised end to end only for an unreachable endpoint (sys-dead)",
